@@ -40,6 +40,8 @@ def spec_to_dict(spec: dict) -> dict:
         d["transformations"].append({"type": "field_name_suffix", "suffix": "_" + s})
     if spec.get("state"):
         d["transformations"].append({"type": "set_state", "key": "k", "val": spec["state"]})
+    if spec.get("ph"):  # resolves %v% before the output format's own value_placeholders item sees it
+        d["transformations"].append({"type": "value_placeholders"})
     for p in spec["post"]:
         d["postprocessing"].append({"type": "embed", "prefix": f"<{p} ", "suffix": f" {p}>"})
     for f in spec["finalizers"]:
@@ -195,7 +197,7 @@ def check_case(case: dict) -> Outcome:
                     if sp.get("state"):
                         want_state = {"k": sp["state"]}
                 want_field = "f" + "".join("_" + x for sp in model for x in sp["suffixes"])
-                nitems = sum(len(sp["suffixes"]) + (1 if sp.get("state") else 0) for sp in model)
+                nitems = sum(len(sp["suffixes"]) + (1 if sp.get("state") else 0) + (1 if sp.get("ph") else 0) for sp in model)
                 got_field = rule.detection.detections["sel"].detection_items[0].field
                 if (dict(pl.state), got_field, list(pl.applied)) != (want_state, want_field, [True] * nitems):
                     out.fail(f"C14:apply-observation:{cls}", f"history {history}: state={dict(pl.state)} field={got_field} applied={pl.applied}; expected state={want_state} field={want_field} applied={[True] * nitems}")
@@ -213,12 +215,14 @@ def cases(draw, reuse: bool):
     specs = []
     for i in range(n):
         specs.append({
-            "name": f"p{i}", "priority": draw(st.sampled_from([10, 10, 20, 5, 20])),
+            "name": draw(st.sampled_from([f"p{i}", f"p{i}", f"{'zyxwv'[i]}/p{i}", f"{'edcba'[i]}/q{9 - i}", f"d{4 - i}/common", f"windows/{'ab'[i % 2]}/base{i // 2}"])),
+            "priority": draw(st.sampled_from([10, 10, 20, 5, 20])),
             "suffixes": [f"{i}{c}" for c in "ab"[:draw(st.integers(0, 2))]],
             "state": draw(st.sampled_from([None, None, f"s{i}"])),
             "post": [f"{i}{c}" for c in "xy"[:draw(st.integers(0, 2))]],
             "finalizers": [f"{i}"] if draw(st.integers(0, 2)) == 0 else [],
             "var": draw(st.sampled_from([None, f"val{i}"])),
+            "ph": draw(st.booleans()),
         })
     ops = []
     nobj = n
@@ -276,10 +280,12 @@ def perm_cases(tier):
     base = [{"name": f"p{i}", "priority": pr, "suffixes": [f"{i}a"], "state": f"s{i}" if i % 2 else None, "post": [f"{i}x"],
              "finalizers": [f"{i}"] if i == 1 else [], "var": f"val{i}" if i != 2 else None}
             for i, pr in enumerate([10, 10, 5, 20, 10])]
+    pathlike = ["b/zeta", "a/zeta", "c/alpha", "x/y/zeta", "a/beta"]
     for n in (3, 4, 5):
-        specs = base[:n]
-        for perm in itertools.permutations(range(n)):
-            yield {"specs": specs, "ops": [["resolve", list(perm)], ["convert", n, "default"]]}
+        for names in (None, pathlike):
+            specs = [dict(b, name=names[i]) if names else b for i, b in enumerate(base[:n])]
+            for perm in itertools.permutations(range(n)):
+                yield {"specs": specs, "ops": [["resolve", list(perm)], ["convert", n, "default"]]}
 
 
 def run(ctx) -> None:
@@ -288,7 +294,7 @@ def run(ctx) -> None:
         i += 1
         if i % ctx.nshards == ctx.shard:
             ctx.do(c)
-    ctx.extra["exhaustive_part"] = "every permutation of the resolver's argument list for 3, 4 and 5 pipelines with priority ties"
+    ctx.extra["exhaustive_part"] = "every permutation of the resolver's argument list for 3, 4 and 5 pipelines with priority ties, with flat and with path-like (slash-containing, equal basename) pipeline names"
     n = 500 if ctx.tier == "quick" else 6000
     ctx.hyp(cases(reuse=False), n, salt=1)
     ctx.hyp(cases(reuse=True), n // 2, salt=2)
